@@ -7,12 +7,14 @@ import abnf as ABNF
 ID = "C03"
 MODULE = "JmesVerif.Props.C03"
 THEOREMS = ["C03_sound", "C03_complete", "C03_language", "C03_no_fuel_tokens", "C03_number_tokens_in_range",
-            "C03_multiselect_nonempty", "C03_abnf_sound", "T1_expr", "T2_expr"]
+            "C03_multiselect_nonempty", "C03_abnf_sound", "C03_abnf_complete", "C03_abnf_language", "T1_expr", "T2_expr"]
 TRUSTED_BASE = [
     "Lean 4.33 kernel; axioms propext, Classical.choice, Quot.sound only",
     "hand-written models Model/Lexer.lean, Model/JsonText.lean (serde_json's JSON text grammar, modelled), Model/Parser.lean of lexer.rs / parser.rs, "
     "tied to the code by the `parse` correspondence stream of this run (Ok/Err of jmespath::parse vs the model, on every generated string)",
     "tools/abnf.py: an independent chart recogniser of the published ABNF at token level judges generated token strings (<= 18 tokens) directly",
+    "Spec/Abnf.lean is the published ABNF transcribed production by production over tokens; C03_abnf_language proves the parser model accepts "
+    "exactly its sentences plus exactly the strings of the deviation classes F3/F4/F5 (so `Legal` is no longer trusted as a reading of the ABNF)",
     "Spec/Grammar.lean `Legal` is the reading of the published ABNF at token level with binding powers; its four documented "
     "extensions (known findings F3, F4, F5 — and F16 for C04) are marked by the executable deviation counters in Spec/GrammarCheck.lean",
 ]
